@@ -64,6 +64,12 @@ func genRound3(c *Ctx, which ...string) {
 	if on("hasnext-per-payload") {
 		genHasNextPerPayload(c)
 	}
+	if on("field-directives") {
+		genFieldDirectivesCalled(c)
+	}
+	if on("response-buffer") {
+		genResponseBufferLocal(c)
+	}
 }
 
 // (1) `__typename` answers the object's own name: the constant of the object function it stands in.
@@ -858,6 +864,114 @@ func genHasNextPerPayload(c *Ctx) {
 						local = false
 					}
 					c.R.Check(local, "gen:"+g.Name+"/Exec/"+fn.Name()+"/HasNext", c.ipos(in), "a variable of this response function", "Response.HasNext points to a variable shared by every payload of the operation: a payload that is still queued (multipart batches them) changes its hasNext when the next payload is computed — the initial part says hasNext:false although increments follow")
+				}
+			}
+		}
+	}
+}
+
+// (15) a runtime directive the schema puts on a field is called by that field's function.
+func genFieldDirectivesCalled(c *Ctx) {
+	c.R.Rule("field-directives-called", "for every object field of the materialised schema that carries a directive with an implementation (ec.directives.X): the generated field function reads ec.directives.X", 1)
+	n := 0
+	for _, g := range c.Gen {
+		sch := c.schema(g)
+		if sch == nil {
+			continue
+		}
+		// implemented directives: fields of DirectiveRoot
+		impl := map[string]bool{}
+		if tp := c.W.TPkg(g.Path); tp != nil && tp.Types != nil {
+			if obj := tp.Types.Scope().Lookup("DirectiveRoot"); obj != nil {
+				if st, ok := obj.Type().Underlying().(*types.Struct); ok {
+					for i := 0; i < st.NumFields(); i++ {
+						impl[strings.ToLower(st.Field(i).Name())] = true
+					}
+				}
+			}
+		}
+		if len(impl) == 0 {
+			continue
+		}
+		for _, fn := range c.genFuncs(g) {
+			if fn.Parent() != nil || !isFieldFuncSig(fn) || !strings.HasPrefix(fn.Name(), "_") {
+				continue
+			}
+			parts := strings.SplitN(strings.TrimPrefix(fn.Name(), "_"), "_", 2)
+			if len(parts) != 2 {
+				continue
+			}
+			def := sch.Types[parts[0]]
+			if def == nil {
+				continue
+			}
+			fd := def.Fields.ForName(parts[1])
+			if fd == nil {
+				continue
+			}
+			for _, d := range fd.Directives {
+				if !impl[strings.ToLower(d.Name)] {
+					continue
+				}
+				n++
+				called := false
+				for _, body := range an.WithClosures(fn) {
+					for _, b := range body.Blocks {
+						for _, in := range b.Instrs {
+							if fa, ok := in.(*ssa.FieldAddr); ok && strings.EqualFold(fieldNameOf(fa), d.Name) && strings.HasSuffix(fa.X.Type().String(), "DirectiveRoot") {
+								called = true
+							}
+						}
+					}
+				}
+				c.R.Check(called, "gen:"+g.Name+"/"+fn.Name()+"/@"+d.Name, c.pos(fn.Pos()), "the field function calls the directive", "the schema puts @"+d.Name+" on "+parts[0]+"."+parts[1]+" but the generated field function never calls it: a guard directive is silently ignored and the resolver's value is returned")
+			}
+		}
+	}
+	if n == 0 {
+		c.R.Fail("field-directives-called: no object field with an implemented directive in the materialised schemas")
+	}
+}
+
+// (16) every payload is serialised into a buffer of its own.
+func genResponseBufferLocal(c *Ctx) {
+	c.R.Rule("response-buffer-local", "generated Exec: the bytes stored into Response.Data come from a bytes.Buffer that lives in the response function building that response, not from one shared by all payloads of the operation", 2)
+	for _, g := range c.Gen {
+		ex := c.genFunc(g, "Exec")
+		if ex == nil {
+			continue
+		}
+		for _, fn := range an.WithClosures(ex) {
+			for _, b := range fn.Blocks {
+				for _, in := range b.Instrs {
+					st, ok := in.(*ssa.Store)
+					if !ok {
+						continue
+					}
+					fa, ok := st.Addr.(*ssa.FieldAddr)
+					if !ok || fieldNameOf(fa) != "Data" || !strings.HasSuffix(fa.X.Type().String(), "graphql.Response") {
+						continue
+					}
+					call, ok := an.Strip(st.Val).(*ssa.Call)
+					if !ok || an.CalleeOf(call).FullName() != "(*bytes.Buffer).Bytes" {
+						continue
+					}
+					buf := an.RootAlloc(call.Call.Args[0])
+					local := false
+					if a, isA := buf.(*ssa.Alloc); isA && a.Parent() == fn {
+						local = true
+					}
+					// a subscription resets a shared buffer before each payload: accepted when the Reset precedes the marshal
+					if !local {
+						for _, b2 := range fn.Blocks {
+							for _, i2 := range b2.Instrs {
+								if c2, ok := i2.(*ssa.Call); ok && an.CalleeOf(c2).FullName() == "(*bytes.Buffer).Reset" && an.Before(i2, in) {
+									local = true
+								}
+							}
+						}
+					}
+					c.R.Check(local, "gen:"+g.Name+"/Exec/"+fn.Name()+"/Data", c.ipos(in), "a buffer of this response function (or reset before use)", "Response.Data is taken from a buffer shared by all payloads of the operation and never reset: the second payload's data is the first one's JSON followed by its own, which no client can parse")
 				}
 			}
 		}
